@@ -95,6 +95,10 @@ def injection(world, pos):
         line = grammar.blanks(r, 0, 2) + "[" + grammar.blanks(r, 0, 2)        # nothing but the opening bracket: no closing one
     if kind != "missing_delim" and cls != "NONE" and r.chance(0.2):
         line += grammar.blanks(r, 1, 2) + r.pick(C) + grammar.token(r, C + '"', 0, 6, inner_blank=True)     # a trailing comment does not heal the line
+    elif kind != "missing_delim" and cls != "NONE" and len(C) >= 2 and r.chance(0.25):
+        # ... nor does a comment that contains further comment characters (in any order) and a closing bracket
+        c1, c2 = r.sample(list(C), 2)
+        line += " " + c1 + " ] " + c2 + " z" + r.pick(["", " ]"])
     if kind == "missing_delim":
         key = grammar.token(r, " \t" + D + C + '"', 1, 5, first_forbid="[")
         text = grammar.token(r, D + C + '"', 1, 6, first_forbid=" \t", inner_blank=True).rstrip(" \t") or "t"
